@@ -2,7 +2,11 @@
    kinds: which sort every take / windowed compute is handed (TransformCall.sort -> RQ Take.sort,
    Compute.window.sort), which Sort transforms survive (a sort in front of a partitioned group is
    "undone": recorded but not emitted), how group bodies, window bodies and relational arguments
-   (join / append / loop) scope the carried sort.  Sort keys are opaque tokens.  Definitions only. *)
+   (join / append / loop) scope the carried sort and the partition, and where an aggregate ends the
+   sort.  Sort keys are opaque tokens.  Definitions only.
+
+   Mirrors flatten.rs as of fixes 8f24a64 (relational arguments), 592b6f8 (leaving a nested group
+   restores the enclosing partition) and 8d54bf7 (an aggregate outside of any group ends the sort). *)
 From Coq Require Import List Bool.
 Import ListNotations.
 
@@ -14,7 +18,8 @@ Section Flatten.
   | PSort (k : key)
   | PTake                          (* take *)
   | PWin                           (* a windowed compute (derive/select of a window function) *)
-  | POther                         (* filter, derive, select, aggregate ...: no effect on the carried sort *)
+  | POther                         (* filter, derive, select ...: no effect on the carried sort *)
+  | PAgg                           (* aggregate *)
   | PGroup (nonempty : bool) (body : list pitem)     (* group {by} (body); nonempty = `by` is not the empty tuple *)
   | PWindow (body : list pitem)    (* window rows:.. (body) *)
   | PSub (body : list pitem).      (* join / append / loop with a relational argument `body` *)
@@ -26,8 +31,13 @@ Section Flatten.
 
   Definition is_ne_group (i : pitem) : bool := match i with PGroup true _ => true | _ => false end.
 
+  (* Flattener.partition : Option<Box<Expr>>.  None = outside of any group; Some ne = inside `group by (..)`,
+     ne = `by` is not the empty tuple (RQ Take.partition / Window.partition is non-empty exactly then) *)
+  Definition partitioned (part : option bool) : bool := match part with Some true => true | _ => false end.
+  Definition in_group (part : option bool) : bool := match part with Some _ => true | None => false end.
+
   (* fuel bounds the nesting depth + length; out of fuel = ([], s) and is excluded by the statements *)
-  Fixpoint flat (fuel : nat) (und part : bool) (s : key) (p : list pitem) : list out * key :=
+  Fixpoint flat (fuel : nat) (und : bool) (part : option bool) (s : key) (p : list pitem) : list out * key :=
     match fuel with
     | O => ([], s)
     | S f =>
@@ -40,13 +50,18 @@ Section Flatten.
           | PSort k =>
               let '(o, s') := flat f und part k rest in
               ((if und_i then [] else [OSort k]) ++ o, s')
-          | PTake => let '(o, s') := flat f und part s rest in (OTake part s :: o, s')
-          | PWin => let '(o, s') := flat f und part s rest in (OWin part s :: o, s')
+          | PTake => let '(o, s') := flat f und part s rest in (OTake (partitioned part) s :: o, s')
+          | PWin => let '(o, s') := flat f und part s rest in (OWin (partitioned part) s :: o, s')
           | POther => flat f und part s rest
+          | PAgg =>
+              (* `ends_sort = self.partition.is_none() && Aggregate`: the sort is cleared after the aggregate's own
+                 TransformCall was built -- only outside of any group *)
+              flat f und part (if in_group part then s else empty) rest
           | PGroup ne body =>
               let und_b := if ne then true else und_i in
-              let '(ob, _) := flat f und_b ne empty body in
-              let '(o, s') := flat f und part empty rest in       (* group resets the order *)
+              let '(ob, _) := flat f und_b (Some ne) empty body in
+              (* group resets the order; the enclosing partition applies again (fix 592b6f8) *)
+              let '(o, s') := flat f und part empty rest in
               (ob ++ o, s')
           | PWindow body =>
               let '(ob, sb) := flat f und_i part s body in
@@ -54,26 +69,27 @@ Section Flatten.
               (ob ++ o, s')
           | PSub body =>
               (* the argument is a pipeline of its own (another table): nothing of it appears here, and the
-                 carried sort is restored afterwards (fix 8f24a64) *)
+                 carried sort, the partition and the frame are restored afterwards (fix 8f24a64) *)
               flat f und part s rest
           end
       end
     end.
 
   (* ---- specification: the order in effect at every take / windowed compute, in pipeline order.
-     sort introduces it; a group body starts without one and the group resets it afterwards; a window
-     body inherits and passes it on; relational arguments do not touch it. *)
-  Fixpoint carried_spec (fuel : nat) (part : bool) (s : key) (p : list pitem) : list (bool * key) * key :=
+     sort introduces it; aggregate ends it; a group body starts without one and the group resets it
+     afterwards; a window body inherits and passes it on; relational arguments do not touch it. *)
+  Fixpoint carried_spec (fuel : nat) (part : option bool) (s : key) (p : list pitem) : list (bool * key) * key :=
     match fuel with
     | O => ([], s)
     | S f =>
       match p with
       | [] => ([], s)
       | PSort k :: rest => carried_spec f part k rest
-      | PTake :: rest | PWin :: rest => let '(o, s') := carried_spec f part s rest in ((part, s) :: o, s')
+      | PTake :: rest | PWin :: rest => let '(o, s') := carried_spec f part s rest in ((partitioned part, s) :: o, s')
       | POther :: rest | PSub _ :: rest => carried_spec f part s rest
+      | PAgg :: rest => carried_spec f part empty rest
       | PGroup ne body :: rest =>
-          let '(ob, _) := carried_spec f ne empty body in
+          let '(ob, _) := carried_spec f (Some ne) empty body in
           let '(o, s') := carried_spec f part empty rest in (ob ++ o, s')
       | PWindow body :: rest =>
           let '(ob, sb) := carried_spec f part s body in
@@ -83,8 +99,30 @@ Section Flatten.
 
   Definition carried_of (o : list out) : list (bool * key) :=
     flat_map (fun x => match x with OTake p k | OWin p k => [(p, k)] | OSort _ => [] end) o.
+
+  (* ---- the known class (finding F44): an aggregate INSIDE a group body that is not the last transform of that
+     body keeps the sort in effect for what follows it (the code ends the sort only outside of groups).
+     `tame ing p`: no such aggregate in p, where ing = p is (part of) a group body. *)
+  Fixpoint has_agg (fuel : nat) (p : list pitem) : bool :=
+    match fuel with
+    | O => true
+    | S f => existsb (fun i => match i with PAgg => true | PWindow b => has_agg f b | _ => false end) p
+    end.
+
+  Fixpoint tame (fuel : nat) (ing : bool) (p : list pitem) : bool :=
+    match fuel with
+    | O => false
+    | S f =>
+      match p with
+      | [] => true
+      | PAgg :: rest => (negb ing || match rest with [] => true | _ => false end) && tame f ing rest
+      | PGroup _ body :: rest => tame f true body && tame f ing rest
+      | PWindow body :: rest => (negb ing || negb (has_agg f body)) && tame f ing body && tame f ing rest
+      | _ :: rest => tame f ing rest
+      end
+    end.
 End Flatten.
 
-Arguments PSort {key}. Arguments PTake {key}. Arguments PWin {key}. Arguments POther {key}.
+Arguments PSort {key}. Arguments PTake {key}. Arguments PWin {key}. Arguments POther {key}. Arguments PAgg {key}.
 Arguments PGroup {key}. Arguments PWindow {key}. Arguments PSub {key}.
 Arguments OSort {key}. Arguments OTake {key}. Arguments OWin {key}.
